@@ -230,3 +230,29 @@ def guard_ok(cl):
                 if any(not any(s in b.reach_from(y, avoid=set(loops), include_start=True) for s in step_sites) for y in succ):
                     return True, g
     return False, guards[0] if guards else None
+
+
+SIGNED = {"i8": 8, "i16": 16, "i32": 32, "i64": 64}
+WIDTH = {"u8": 8, "u16": 16, "u32": 32, "u64": 64, "u128": 128, "usize": 64, "i8": 8, "i16": 16, "i32": 32, "i64": 64, "i128": 128, "isize": 64}
+
+
+def sign_extended_masks(prog):
+    """`movemask(..) as u64` (or the result of a helper that returns it): a bit mask held in a signed integer widened directly — the
+    sign bit (byte 31 of the chunk) is copied into all the new upper bits.  [(body, where, text)]"""
+    b, fam = scanner_family(prog)
+    out = []
+    if b is None:
+        return out
+    mask_fns = {x.npath.split("::")[-1] for x in fam.values() if x is not b and any((c.callee or "").split("::")[-1] in MOVEMASK and c.t.get("dst") and c.t["dst"]["l"] == 0 for c in x.calls())}
+    for x in fam.values():
+        for bb, i, st in x.stmts():
+            if st["k"] != "assign" or st["rv"]["k"] != "cast" or st["rv"].get("cast") != "IntToInt" or st["rv"]["op"]["k"] not in ("copy", "move"):
+                continue
+            src_ty = x.locals[st["rv"]["op"]["place"]["l"]]["ty"] if not st["rv"]["op"]["place"]["p"] else ""
+            dst_ty = st["rv"].get("ty", "")
+            if src_ty in SIGNED and WIDTH.get(dst_ty, 0) > SIGNED[src_ty]:
+                t = canon(x, st["rv"]["op"])
+                nm = t.split("(")[0]
+                if nm in MOVEMASK or nm in mask_fns:
+                    out.append((x, "%s:%d" % (x.file, st.get("line", x.line)), "%s as %s" % (t[:50], dst_ty)))
+    return out
